@@ -40,8 +40,9 @@ def _collect_implicit_usages(
     for inp in node.inputs:
         if inp is None or inp.graph is subgraph:
             continue
-        # This is a closed variable, add to implicit usages of all graphs that enclose it
-        for g in reversed(graph_stack):
+        # This is a closed variable, add to implicit usages of all graphs that enclose it.
+        # The analyzed graph itself (the bottom of the stack) is not a sub-graph and has no entry
+        for g in reversed(graph_stack[1:]):
             if g is inp.graph:
                 break
             implicit_usages[g].add(inp)
